@@ -86,6 +86,13 @@ impl BlockBuilder {
             let e2: biscuit_parser::error::LanguageError = e.into();
             e2
         })?;
+        super::scope::check_parsed_scopes(
+            source_result
+                .rules
+                .iter()
+                .map(|(_, rule)| rule)
+                .chain(source_result.checks.iter().flat_map(|(_, c)| &c.queries)),
+        )?;
 
         for (_, fact) in source_result.facts.into_iter() {
             let mut fact: Fact = fact.into();
